@@ -104,11 +104,11 @@ InitS == /\ layout = 0
               [] SMode = "widearr" -> tree \in WideArrT /\ tree2 \in WideArrT
 NextS == UNCHANGED <<tree, tree2, layout>>
 
-EmitS == LET E == DenT(tree) V == DenT(tree2) IN
+EmitS == \A E \in {DenT(tree)} : \A V \in {DenT(tree2)} : \A M \in {SchemaMerge(E, V)} :
   CSVWrite("%1$s", <<ToJson([e |-> RenderL(tree, LayE), v |-> RenderL(tree2, LayV),
-                             schema |-> SchemaMerge(E, V), lazy |-> LazyMerge(E, V),
-                             schema2 |-> SchemaMerge(SchemaMerge(E, V), V)])>>, IOEnv.OUT)
+                             schema |-> M, lazy |-> LazyMerge(E, V),
+                             schema2 |-> SchemaMerge(M, V)])>>, IOEnv.OUT)
 \* merging the same text again changes nothing
-Idempotent == LET E == DenT(tree) V == DenT(tree2) IN
-  SchemaMerge(SchemaMerge(E, V), V) = SchemaMerge(E, V) /\ LazyMerge(LazyMerge(E, V), V) = LazyMerge(E, V)
+Idempotent == \A E \in {DenT(tree)} : \A V \in {DenT(tree2)} : \A M \in {SchemaMerge(E, V)} : \A L \in {LazyMerge(E, V)} :
+  SchemaMerge(M, V) = M /\ LazyMerge(L, V) = L
 =============================================================================
